@@ -411,7 +411,7 @@ def oracle(ctx, cr):
     if cr.rec is None:
         return
     if "error" in cr.rec:
-        ctx.violation("%s:harness_error" % op, cr.rec["error"][:300], det)
+        ctx.violation("%s:malformed_record" % op, cr.rec["error"][:300], det)
         return
     ctx.ev()
     got = cr.rec["V"]
@@ -422,12 +422,12 @@ def oracle(ctx, cr):
     try:
         rtag, atag, side, svals = parse_x(cr.rec["X"])
     except (ValueError, IndexError) as e:
-        ctx.violation("%s:harness_error" % op, "unparsable X section: %s" % e, det)
+        ctx.violation("%s:malformed_record" % op, "unparsable X section: %s" % e, det)
         return
     # ---- element type: requested dtype / source element type / what the definition yields
     want = o.get("R")
     if want is not None and rtag != want:
-        ctx.violation("%s:harness_error" % op, "reference fold type %s, table says %s" % (rtag, want), det)
+        ctx.violation("%s:malformed_record" % op, "reference fold type %s, table says %s" % (rtag, want), det)
     if got["tag"] != rtag:
         ctx.violation("%s:type" % op, "%s: element type of the view is %s, expected %s" % (desc, got["tag"], rtag), det)
     if atag != rtag and atag != "??":
@@ -445,7 +445,7 @@ def oracle(ctx, cr):
     n = int(np.prod(eshape)) if len(eshape) else 1
     vals = got["data"]
     if vals is None or len(vals) != n or len(svals) != n:
-        ctx.violation("%s:harness_error" % op, "element count mismatch: view %s folds %d expected %d" % (None if vals is None else len(vals), len(svals), n), det)
+        ctx.violation("%s:malformed_record" % op, "element count mismatch: view %s folds %d expected %d" % (None if vals is None else len(vals), len(svals), n), det)
         return
     # ---- layer 1: element == left fold of the designated elements with the library's scalar functor (bit-exact)
     cmp_tag = rtag if got["tag"] == rtag else ("f8" if "f" in (rtag[0], got["tag"][0]) else "i8")
